@@ -419,7 +419,8 @@ func dumpField(toks []string) string {
 }
 
 // ltRoundTrip: rt <dump tokens…>
-//   => enc=<hex> dec=<dump|err> enc2=<hex|-> gz=<ok|differs|err> cp=<same|differs|na|err>
+//
+//	=> enc=<hex> dec=<dump|err> enc2=<hex|-> gz=<ok|differs|err> cp=<same|differs|na|err>
 func ltRoundTrip(toks []string) string {
 	p := &ltParser{toks: toks}
 	db := laptimer.NewDB()
